@@ -48,17 +48,20 @@ func (d *Database) Has(key []byte) (bool, error) {
 
 func (d *Database) Get(key []byte, cb func(value []byte) error) error {
 	d.lock.RLock()
-	defer d.lock.RUnlock()
-
 	if d.db == nil {
+		d.lock.RUnlock()
 		return errDBClosed
 	}
-
 	val, ok := d.db[string(key)]
+	d.lock.RUnlock()
+
 	if !ok {
 		return db.ErrKeyNotFound
 	}
 
+	// The callback runs without the store lock, as on the pebble backends: it may use the store
+	// again, even write to it (holding the read lock here made such a callback deadlock). Stored
+	// values are replaced, never modified in place, so val stays valid.
 	return cb(val)
 }
 
